@@ -50,8 +50,19 @@ def _is_subject(node, subject_texts: Set[str], binds) -> bool:
 PROG = None  # set by Ctx: lets class/module constants stand for their literal value
 
 
-def _const_str(node, binds, frame=None) -> Optional[List[str]]:
+def _const_str(node, binds, frame=None, defs=None) -> Optional[List[str]]:
     """Constant string value(s) of a node (a Name bound to a constant counts)."""
+    if isinstance(node, ast.Name) and binds and node.id in binds and binds[node.id].kind == "const" \
+            and isinstance(binds[node.id].value, tuple) and binds[node.id].value and all(isinstance(x, str) for x in binds[node.id].value):
+        return list(binds[node.id].value)
+    if isinstance(node, ast.Name) and defs and node.id in defs and not (binds and node.id in binds):
+        from .paths import NOCONST, _literal
+
+        v = _literal(defs[node.id])
+        if isinstance(v, str):
+            return [v]
+        if isinstance(v, tuple) and v and all(isinstance(x, str) for x in v):
+            return list(v)
     if PROG is not None and frame is not None and isinstance(node, (ast.Name, ast.Attribute)) \
             and not (isinstance(node, ast.Name) and binds and node.id in binds):
         from .paths import NOCONST, const_value
@@ -103,7 +114,7 @@ def regex_is_factor_safe(pattern: str) -> bool:
     return walk(tree)
 
 
-def constraint_of(test_node, decided: bool, subject_texts: Set[str], binds=None, frame=None) -> List[Constraint]:
+def constraint_of(test_node, decided: bool, subject_texts: Set[str], binds=None, frame=None, defs=None) -> List[Constraint]:
     """Interpret one decided leaf test as constraint(s) on the subject, or []."""
     n = test_node
     out: List[Constraint] = []
@@ -117,7 +128,7 @@ def constraint_of(test_node, decided: bool, subject_texts: Set[str], binds=None,
         op, left, right = n.ops[0], n.left, n.comparators[0]
         # L in X / L not in X
         if isinstance(op, (ast.In, ast.NotIn)) and _is_subject(right, subject_texts, binds):
-            lits = _const_str(left, binds, frame)
+            lits = _const_str(left, binds, frame, defs)
             if lits is not None and len(lits) == 1:
                 contains = decided if isinstance(op, ast.In) else not decided
                 add("hasfactor" if contains else "nofactor", lits)
@@ -125,7 +136,7 @@ def constraint_of(test_node, decided: bool, subject_texts: Set[str], binds=None,
         if isinstance(left, ast.Call) and isinstance(left.func, ast.Attribute) \
                 and left.func.attr in ("find", "rfind", "count") and _is_subject(left.func.value, subject_texts, binds) \
                 and left.args:
-            lits = _const_str(left.args[0], binds, frame)
+            lits = _const_str(left.args[0], binds, frame, defs)
             rc = None
             if isinstance(right, ast.Constant):
                 rc = right.value
@@ -154,7 +165,7 @@ def constraint_of(test_node, decided: bool, subject_texts: Set[str], binds=None,
     if isinstance(n, ast.Call):
         d = dotted(n.func) or ""
         if d in ("re.search",) and len(n.args) >= 2 and _is_subject(n.args[1], subject_texts, binds):
-            lits = _const_str(n.args[0], binds, frame)
+            lits = _const_str(n.args[0], binds, frame, defs)
             if lits is not None and len(lits) == 1 and len(n.args) == 2 and not n.keywords:
                 if decided:
                     out.append(Constraint("match", lits[0], "re:" + repr(lits[0])))
@@ -166,7 +177,7 @@ def constraint_of(test_node, decided: bool, subject_texts: Set[str], binds=None,
             g = n.args[0]
             if len(g.generators) == 1 and not g.generators[0].ifs and isinstance(g.generators[0].target, ast.Name):
                 var = g.generators[0].target.id
-                lits = _const_str(g.generators[0].iter, binds, frame)
+                lits = _const_str(g.generators[0].iter, binds, frame, defs)
                 elt = g.elt
                 if lits is not None and isinstance(elt, ast.Compare) and len(elt.ops) == 1 \
                         and isinstance(elt.left, ast.Name) and elt.left.id == var \
@@ -185,7 +196,7 @@ def path_constraints(path: Path, subject_texts: Set[str], frame_filter=None) -> 
     for ev in path.events:
         if ev.kind != "test" or ev.target != "assumed":
             continue
-        out.extend(constraint_of(ev.node, bool(ev.extra), subject_texts, getattr(ev, "binds", None), ev.frame))
+        out.extend(constraint_of(ev.node, bool(ev.extra), subject_texts, getattr(ev, "binds", None), ev.frame, getattr(ev, "defs", None)))
     return out
 
 
